@@ -25,6 +25,49 @@ type JDoc struct {
 	Lines     []GLine
 	Versions  map[int]string // marker version -> text
 	InTree    bool
+	// what is on disk (nil = not on disk)
+	DiskLines    []GLine
+	DiskIncludes []string
+}
+
+// View returns what the workspace should see of this document: the open
+// buffer, else the disk content (ok=false: neither).
+func (d *JDoc) View() (lines []GLine, includes []string, ok bool) {
+	if d.Open {
+		return d.Lines, d.Includes, true
+	}
+	if d.DiskMark >= 0 {
+		return d.DiskLines, d.DiskIncludes, true
+	}
+	return nil, nil, false
+}
+
+// Tree lists the documents reachable from root through include lines, using
+// View of each (root first, then include order, each once).
+func (w *JWorld) Tree(root *JDoc) []*JDoc {
+	var out []*JDoc
+	seen := map[*JDoc]bool{}
+	var rec func(d *JDoc)
+	rec = func(d *JDoc) {
+		if seen[d] {
+			return
+		}
+		_, incs, ok := d.View()
+		if !ok {
+			return
+		}
+		seen[d] = true
+		out = append(out, d)
+		for _, inc := range incs {
+			for _, o := range w.Docs {
+				if o.Path == "/sim/ws/"+inc {
+					rec(o)
+				}
+			}
+		}
+	}
+	rec(root)
+	return out
 }
 
 type JWorld struct {
@@ -33,6 +76,8 @@ type JWorld struct {
 	Docs      []*JDoc
 	Pools     *Pools
 	openCount int
+	Agg       bool // every version carries the aggregation block
+	DeepTree  bool // a.journal may include b.journal
 }
 
 var jPaths = []string{"/sim/ws/main.journal", "/sim/ws/a.journal", "/sim/ws/b.journal", "/sim/ws/new.journal"}
@@ -61,6 +106,18 @@ func (w *JWorld) GenJText(c *simrt.Chooser, doc *JDoc, v int, includes []string)
 		line(fmt.Sprintf("    %s    %d MRK", stampAcct, v+1), Occ{Kind: "account", Name: stampAcct, Start: 4, End: 4 + len(stampAcct)}),
 		line("    v:sink          0 MRK", Occ{Kind: "account", Name: "v:sink", Start: 4, End: 10}),
 		line(""))
+	if w.Agg {
+		// aggregation weights (DESIGN 4.3): document i posts 10^(i-1) W to agg:all exactly once
+		wt := 1
+		for i := 1; i < doc.No; i++ {
+			wt *= 10
+		}
+		lines = append(lines,
+			line("2024-01-05 aggpayee  ; aggtag:v", Occ{Kind: "payee", Name: "aggpayee", Start: 11, End: 19}, Occ{Kind: "tag", Name: "aggtag", Start: 23, End: 29}),
+			line(fmt.Sprintf("    agg:all  %d W", wt), Occ{Kind: "account", Name: "agg:all", Start: 4, End: 11}, Occ{Kind: "commodity", Name: "W", Start: 13 + len(fmt.Sprint(wt)) + 1, End: 13 + len(fmt.Sprint(wt)) + 2}),
+			line("    agg:sink", Occ{Kind: "account", Name: "agg:sink", Start: 4, End: 12}),
+			line(""))
+	}
 	nt := c.Choose("ntxn", 3)
 	for i := 0; i < nt; i++ {
 		lines = append(lines, GenTxn(c, c.Choose("day", 300), w.Pools)...)
@@ -76,8 +133,16 @@ func (w *JWorld) GenJText(c *simrt.Chooser, doc *JDoc, v int, includes []string)
 
 // NewJWorld creates main.journal (includes a.journal), a.journal, b.journal
 // (not included: outside the tree) on disk, and an unsaved fourth document.
-func NewJWorld(c *simrt.Chooser, workspace bool) *JWorld {
+func NewJWorld(c *simrt.Chooser, workspace bool, flags ...string) *JWorld {
 	w := &JWorld{Env: NewEnv(), Pools: DefaultPools()}
+	for _, f := range flags {
+		switch f {
+		case "agg":
+			w.Agg = true
+		case "deep":
+			w.DeepTree = true
+		}
+	}
 	w.Env.Disk.Env["HOME"] = "/sim"
 	if workspace {
 		w.Root = "/sim/ws"
@@ -95,6 +160,8 @@ func NewJWorld(c *simrt.Chooser, workspace bool) *JWorld {
 		d.Versions[0] = text
 		d.DiskMark = 0
 		d.Lines = lines
+		d.DiskLines = lines
+		d.DiskIncludes = append([]string(nil), d.Includes...)
 		w.Env.Disk.WriteFile(d.Path, []byte(text))
 	}
 	return w
@@ -128,6 +195,13 @@ func (w *JWorld) NextVersion(c *simrt.Chooser, doc *JDoc) string {
 		case 1:
 			doc.Includes = []string{"a.journal", "b.journal"}
 		case 2:
+			doc.Includes = nil
+		}
+	}
+	if w.DeepTree && doc.No == 2 && c.Pct("change-includes-a", 30) {
+		if c.Bool("a-includes-b") {
+			doc.Includes = []string{"b.journal"}
+		} else {
 			doc.Includes = nil
 		}
 	}
@@ -174,6 +248,8 @@ func (w *JWorld) Change(c *simrt.Chooser, doc *JDoc) (J, string) {
 func (w *JWorld) Save(doc *JDoc) J {
 	w.Env.Disk.WriteFile(doc.Path, []byte(doc.Text))
 	doc.DiskMark = doc.Marker
+	doc.DiskLines = doc.Lines
+	doc.DiskIncludes = append([]string(nil), doc.Includes...)
 	return J{"textDocument": docID(doc.URI)}
 }
 
